@@ -339,6 +339,11 @@ func collectPackages(parentDir string, alreadyCollected map[string]*PackageInfo,
 		return parentInfo, validation.NewValidationError(fmt.Errorf("import cycle detected"), parentInfo.FilePath)
 	}
 
+	// the depth of a package must not depend on whether another import reached it first on a shorter path
+	if depthRemaining <= 0 {
+		return parentInfo, validation.NewValidationError(errors.New("reached maximum number of recursive imports"), parentInfo.FilePath)
+	}
+
 	if collected, found := alreadyCollected[parentInfo.Namespace]; found {
 		if collected.FilePath != parentInfo.FilePath {
 			return collected, validation.NewValidationError(fmt.Errorf("namespace '%s' conflicts with '%s'", parentInfo.Namespace, collected.FilePath), parentInfo.FilePath)
@@ -348,10 +353,6 @@ func collectPackages(parentDir string, alreadyCollected map[string]*PackageInfo,
 	}
 
 	alreadyCollected[parentInfo.Namespace] = parentInfo
-
-	if depthRemaining <= 0 {
-		return parentInfo, validation.NewValidationError(errors.New("reached maximum number of recursive imports"), parentInfo.FilePath)
-	}
 
 	log.Info().Msgf("Collecting imports for %v", parentInfo.PackageDir())
 	var importUrls []string
